@@ -144,6 +144,14 @@ def gsLoop : List Guardian → List Bytes → Res (List Bytes)
       | some j => .err (s2b "duplicate pubkey at index " ++ dec done.length ++ s2b " (duplicate of " ++ dec j ++ s2b "): " ++ g.name)
       | none => gsLoop rest (done ++ [a])
 
+/-- The addresses a guardian list denotes (`none` when some key is not a hex address). -/
+def keysOf : List Guardian → Option (List Bytes)
+  | [] => some []
+  | g :: gs =>
+    match hexAddr? g.pubkey, keysOf gs with
+    | some a, some r => some (a :: r)
+    | _, _ => none
+
 def guardianSetPayload (gs : List Guardian) (gsi : Nat) : Res Bytes :=
   if gs.length = 0 then .err (s2b "empty guardian set specified")
   else if gs.length > maxGuardianCount then
@@ -273,6 +281,8 @@ def Req.WF (r : Req) : Prop := r.currentSetIndex < 2 ^ 32 ∧ r.timestamp < 2 ^ 
 
 def Cfg.WF (c : Cfg) : Prop := c.chain < 2 ^ 16 ∧ c.emitter.length = 32
 
+instance (c : Cfg) : Decidable c.WF := by unfold Cfg.WF; exact inferInstance
+
 /-! ## contract side: the Ralph parsers, at the offsets of `Whv.Gen.C15` -/
 
 namespace Ral
@@ -386,7 +396,7 @@ def specOk (gsi : Nat) (pl : Payload) (p : Bytes) : Bool :=
     | some a, some r => a.length == 32 && r.length == 32 && Ral.parseTransferFee p == some (unbe a, r)
     | _, _ => false
   | .guardianSet gs =>
-    match gs.mapM (fun g => hexAddr? g.pubkey) with
+    match keysOf gs with
     | some keys => Ral.parseGuardianSet p == some (gsi + 1, keys)
     | none => false
   | .contractUpgrade s =>
